@@ -969,12 +969,27 @@ func editUndefinedConst(e *env) bool {
 		return false
 	}
 	s := pick(e, "slot", slots)
+	// a bare undefined name as the WHOLE value of a container-typed position takes another
+	// path through the resolver and the backend than one inside a scalar position: half of the edits
+	var whole []vslot
+	for _, x := range slots {
+		if c := x.t.FinalCat(); c == "list" || c == "set" || c == "map" {
+			whole = append(whole, x)
+		}
+	}
+	forceLocal := false
+	if len(whole) > 0 && e.coin("whole_container_value") {
+		s = pick(e, "containerslot", whole)
+		forceLocal = true
+	}
 	shapes := []string{"local", "unknown_prefix"}
-	if len(s.f.Includes) > 0 {
+	if forceLocal {
+		shapes = []string{"local"}
+	} else if len(s.f.Includes) > 0 {
 		shapes = append(shapes, "qualified", "qualified")
 	}
 	enums := defsOf(append([]*idl.File{s.f}, s.f.Includes...), func(d *idl.Def) bool { return d.Kind == idl.KEnum })
-	if len(enums) > 0 {
+	if len(enums) > 0 && !forceLocal {
 		shapes = append(shapes, "no_such_member", "no_such_member")
 	}
 	sh := pick(e, "identshape", shapes)
